@@ -165,4 +165,9 @@ def framesFor (channels k : Nat) : Nat := if channels = 1 then k else (k + 1) / 
 /-- bytes of the data chunk that were read after `k` `next()` calls on a fresh stream -/
 def bytesRead (channels fs : Nat) (data : Bytes) (k : Nat) : Nat := min (framesFor channels k * fs) data.length
 
+/-- `_Chunk.read`: the read that reaches the end of an odd-sized chunk takes its alignment byte along
+(when the file has one): the only byte outside the data chunk the reader chain may take -/
+def alignByte (channels fs : Nat) (data : Bytes) (k : Nat) : Nat :=
+  if data.length % 2 = 1 ∧ bytesRead channels fs data k = data.length then 1 else 0
+
 end ALV.C18
